@@ -102,6 +102,23 @@ func c15Main(r *run.Runner) {
 			c15One(w, "let n = 5; "+sb.String()+"Users | count; T")
 		}
 	})
+	// statements in an order a "helpful" parser might change; separators removed (a newline is not a semicolon)
+	var reorder []string
+	for _, s := range []string{
+		"let lo = base + 1; let base = 10; T | where x > lo", "let c = b; let b = a; let a = 1; T | take c", "T | take n; let n = 1", "let n = 1; T | take n; let m = n; U | take m",
+		"let a = 1; let a = a + 1; let b = a; let a = 5; T | where x == b", "let z = 1;; let y = z;;; T", "let n = 3\nT | take n", "let n = 3\n`T` | take n", "let n = 3 T | take n",
+		"T | take 1\nU | take 2", "T | take 1\n\nlet x = 2", "let a = 1\nlet b = 2\nT", "T\n;U\n;\nV", "let n = f(1)\nT | where n", "let s = 'x'\r\nT | where s == a",
+	} {
+		reorder = append(reorder, s)
+	}
+	for _, s := range c15Corpus() {
+		if strings.Contains(s, ";") {
+			for _, rep := range []string{"\n", " ", "\n\n", " // c\n"} {
+				reorder = append(reorder, strings.ReplaceAll(s, ";", rep), strings.Replace(s, ";", rep, 1))
+			}
+		}
+	}
+	r.Sweep("statement-order-and-separators", int64(len(reorder)), func(w *run.Worker, item int64) { c15One(w, reorder[item]) })
 	r.Sweep("semicolon-insertion", int64(len(corpus)), func(w *run.Worker, item int64) {
 		p := corpus[item]
 		for off := 0; off <= len(p); off++ {
